@@ -619,6 +619,8 @@ PV(d, f, sm, w, n, s, xt, xd, xp, yp, iq, at, ms, cl, sh) ==
 (* C07: hierarchy shapes with a plain leaf, plus leaf shapes (type alias / dimensions / prefixes) on plain hierarchies *)
 LeafShapes == ({"Real", "Integer", "Boolean", "aR", "aI", "aB", "aaR"} \X (0..2) \X {""} \X {""} \X {FALSE})
               \cup ({"Real"} \X {0} \X PreChoices \X PreChoices \X BOOLEAN)
+              \* prefixes on variables of alias (derived) type - input / output must be stripped below top level there too
+              \cup ({"aR", "aI", "aB", "aaR", "Integer"} \X {0} \X (PreChoices \ {""}) \X {"", "output"} \X {FALSE})
 (* NB: TLC evaluates every constant-level definition at start-up, so each family is guarded by Family *)
 HierFamily ==
     IF Family # "hier" THEN {} ELSE
@@ -672,7 +674,7 @@ CTags(s) ==
     \cup (IF pv.attr \notin {"value", "fixed", "unit"} /\ \E j \in SpellableOuter : pv.mods[j].e = "ref" /\ s # "dotted"
           THEN {"outer-attr-ref"} ELSE {})
     \cup (IF pv.xtype = "aaR" /\ \E j \in DOMAIN pv.mods : pv.mods[j].k # "type" /\ pv.attr # "value" THEN {"alias2-attr"} ELSE {})
-    \cup (IF pv.same /\ pv.depth >= 3 /\ \E j \in DOMAIN pv.mods : pv.mods[j].e = "ref" THEN {"same-names-ref"} ELSE {})
+    \cup (IF pv.same /\ pv.depth >= 4 /\ \E j \in DOMAIN pv.mods : pv.mods[j].e = "ref" THEN {"same-names-ref"} ELSE {})
     \cup (IF pv.wrap = 3 THEN {"base-in-other-package"} ELSE {})
 Tags ==
     {"depth" \o ToString(pv.depth), "fan" \o ToString(pv.fan), "wrap" \o ToString(pv.wrap), "nest-" \o pv.nest,
